@@ -16,7 +16,7 @@ spy(CJ.JSONCollection, "_save_to_resource", "synced_collections.backends.collect
 spy(P.Project, "update_cache", "signac.project.Project.update_cache")
 CODE = ["signac.job.Job.document (BufferedJSONAttrDict, write_concern=True)", "signac.project.Project.document", "signac.project.Project.update_cache / _read_cache",
         "synced_collections JSONCollection._save_to_resource / buffered flush", "signac.buffered"]
-BOUNDS = {"scenarios": "job document write on empty / small / 2 KiB document; document key delete; whole reset; project document write and whole assignment; buffered block flushing two jobs; update_cache growing, shrinking+growing, first time",
+BOUNDS = {"scenarios": "Job.clear / Job.reset through a fresh handle; job document write on empty / small / 2 KiB document; document key delete; whole reset; project document write and whole assignment; buffered block flushing two jobs; update_cache growing, shrinking+growing, first time",
           "crash": "before ANY step k >= 0 (unbounded), or torn write of 0 / 1 / half / len-1 bytes at step k", "fault": "step k fails with EIO / ENOSPC / EACCES / EROFS, or the write at step k is short (device full: half of the data is accepted, a buffered writer then gets ENOSPC, a raw writer only a short count)",
           "reader": "one reader opening the target before ANY writer step i and reading it before ANY writer step j >= i (all interleavings of a 2-step reader with the writer)",
           "thread-safety switch": "both states of synced_collections' multithreading support (enabled = default, disabled)"}
@@ -25,7 +25,7 @@ STUBS = ["MemFS for os/open/uuid/gzip (validated against tmpfs on every run; cou
 ASSUMPTIONS = ["POSIX rename atomicity", "process-crash durability of completed calls"]
 
 BIG = {"big": "x" * 2000, "l": list(range(40))}
-NSCN = 11
+NSCN = 13
 
 
 def _setup(scn):
@@ -78,6 +78,9 @@ def _setup(scn):
     if scn == 11:  # whole assignment of the project document over a non-empty one
         pr.document["x"] = 1
         return s, (lambda: setattr(pr, "document", {"z": {"deep": [2]}})), [pd], pj
+    if scn in (12, 13):   # Job.clear() / Job.reset() through a handle of a fresh session that has not opened the document: the document becomes {}
+        fresh = memfs.mkproject(s.fs, "/p").open_job(id=j1.id)
+        return s, (fresh.clear if scn == 12 else fresh.reset), [d1], pj
     raise ValueError(scn)
 
 
@@ -471,10 +474,10 @@ def h_migration_doc(k: int, t: int, named: bool, mt: bool):
 
 HARNESSES = [
     dict(name="h_migration_doc", timeout=(300, 600), unblock=True),
-    dict(name="h_crash", twin="h_crash__reach", timeout=(600, 1500), parts=(12, 12)),
-    dict(name="h_fault", timeout=(600, 1500), parts=(12, 12)),
-    dict(name="h_reader", timeout=(600, 1500), parts=(12, 12)),
-    dict(name="h_reader_api", timeout=(600, 1500), parts=(12, 12)),
+    dict(name="h_crash", twin="h_crash__reach", timeout=(600, 1500), parts=(14, 14)),
+    dict(name="h_fault", timeout=(600, 1500), parts=(14, 14)),
+    dict(name="h_reader", timeout=(600, 1500), parts=(14, 14)),
+    dict(name="h_reader_api", timeout=(600, 1500), parts=(14, 14)),
 ]
 
 
